@@ -517,8 +517,6 @@ type VResult struct {
 
 // doVerify runs NewVerifier+Verify and returns the observation lines plus structured results.
 func (e *Env) doVerify(v VOpts) ([]string, []VResult, error) {
-	u := getUniverse()
-	var rs []VResult
 	var held []integrity.VerifyResult
 	opts := v.build()
 	opts = append(opts, integrity.OptVerifyCallback(func(r integrity.VerifyResult) bool {
@@ -530,6 +528,19 @@ func (e *Env) doVerify(v VOpts) ([]string, []VResult, error) {
 		return []string{"v newerr:" + ierrClass(err)}, nil, err
 	}
 	verr := ver.Verify()
+	ls, rs := verifyLinesRes(held, verr)
+	return ls, rs, verr
+}
+
+// verifyLines renders the outcome of one Verify call (results handed to the callback + error).
+func verifyLines(held []integrity.VerifyResult, verr error) []string {
+	ls, _ := verifyLinesRes(held, verr)
+	return ls
+}
+
+func verifyLinesRes(held []integrity.VerifyResult, verr error) ([]string, []VResult) {
+	u := getUniverse()
+	var rs []VResult
 	for _, r := range held {
 		vr := VResult{Sig: r.Signature().ID(), Entity: u.pgpIndex(r.Entity())}
 		for _, d := range r.Verified() {
@@ -545,7 +556,7 @@ func (e *Env) doVerify(v VOpts) ([]string, []VResult, error) {
 		rs = append(rs, vr)
 	}
 	if verr != nil {
-		return []string{"v err:" + ierrClass(verr)}, rs, verr
+		return []string{"v err:" + ierrClass(verr)}, rs
 	}
 	ls := []string{fmt.Sprintf("v ok n=%d", len(rs))}
 	for _, r := range rs {
@@ -563,7 +574,7 @@ func (e *Env) doVerify(v VOpts) ([]string, []VResult, error) {
 		}
 		ls = append(ls, fmt.Sprintf("vr sig=%d verified=%s keys=%s ent=%s", r.Sig, strings.ReplaceAll(idList(r.Verified), "-", ""), strings.Join(ks, ","), ent))
 	}
-	return ls, rs, nil
+	return ls, rs
 }
 
 func (e *Env) doSignedBy(v VOpts, any bool) []string {
